@@ -2,6 +2,7 @@ package aead
 
 import (
 	"bytes"
+	"crypto/cipher"
 	"fmt"
 	"testing"
 
@@ -66,10 +67,18 @@ func chachaTarget(p path, key, nonce, pt, ad []byte, dstPrefix []byte, spareEnou
 		ptLen:  len(pt),
 		tagAt:  func(n int) (int, int) { return n - 16, n },
 	}
+	// one AEAD object per key, reused across all (mostly failing) Open calls of the case
+	aeads := map[string]cipher.AEAD{}
 	tg.open = func(f [][]byte) (bool, []byte, error) {
 		restore := p.use()
 		defer restore()
-		a := newAEAD(f[3], len(f[1]))
+		a := aeads[string(f[3])]
+		if a == nil {
+			a = newAEAD(f[3], len(f[1]))
+			if len(aeads) < 64 {
+				aeads[string(f[3])] = a
+			}
+		}
 		need := len(f[0]) - 16
 		if need < 0 {
 			need = 0
@@ -511,6 +520,12 @@ func TestC02(t *testing.T) {
 				c.ClassN("enumerated-in-case:"+tgs[ti].scheme, cnt)
 			}
 		}
+		// after all the rejected inputs the unmodified tuple must still open (reused objects/buffers)
+		for ti := range tgs {
+			if err := c02Baseline(&tgs[ti], pt); err != nil {
+				rt.Fatalf("VF-VIOLATION: property=C02 after %d rejected inputs: %v", nmod, err)
+			}
+		}
 	})
 	if t.Failed() {
 		return
@@ -539,6 +554,10 @@ func TestC02(t *testing.T) {
 					what := fmt.Sprintf("path=%s |pt|=%d |ad|=%d (enumerated) %v; sealed tuple: %s", p.name, n, an, err, renderFields(&tg))
 					c.Violation(what, "")
 					t.Fatalf("VF-VIOLATION: property=C02 %s", what)
+				}
+				if err := c02Baseline(&tg, pt); err != nil {
+					c.Violation("after the enumeration: "+err.Error(), "")
+					t.Fatalf("VF-VIOLATION: property=C02 after the enumeration: %v", err)
 				}
 				total += cnt
 				c.Evals(cnt - 1)
